@@ -25,6 +25,18 @@ impl std::fmt::Display for PolicyError {
     }
 }
 
+impl PolicyError {
+    /// The model runtime (not the program) is the limit: the run is undecided, not violated.
+    pub fn is_model_limit(&self) -> bool {
+        match self {
+            PolicyError::Eval(EvalError::Unmodelled(_)) => true,
+            PolicyError::Eval(EvalError::Other(s)) => s.contains("MODEL-OVERFLOW") || s.contains("model step budget") || s.contains("not supported by the model"),
+            PolicyError::Read(r) => r.msg.contains("not supported by the model") || r.msg.contains("too large for the model") || r.msg.contains("unsupported # syntax"),
+            _ => false,
+        }
+    }
+}
+
 pub struct PolicyRun {
     pub outcomes: Vec<Outcome>,
     pub scan: ScanCall,
